@@ -16,7 +16,7 @@ package client
 // to which connection is learnt from a token the far end writes DOWN each accepted stream, not from
 // the content), and every connection receives exactly what the far end wrote down its stream.
 //
-// input : <id> TCP <pos> <lenA> <lenB> <len2A> <len2B>
+// input : <id> TCP <pos> <lenA> <lenB> <len2A> <len2B> [<GOMAXPROCS for this case>]
 // output: <id> state=<D|N|T> A=<ok|BAD:..> B=<ok|BAD:..> downA=<ok|BAD..> downB=<..> streams=<n>
 //   state: D = B's first packet reached the far end while A was parked; N = A never reached the
 //   position; T = B made no progress while A was parked (time-out)
@@ -27,6 +27,7 @@ import (
 	"fmt"
 	"io"
 	"net"
+	"runtime"
 	"strconv"
 	"strings"
 	"sync"
@@ -274,6 +275,10 @@ func c01RtDescribe(got, want []byte, others map[string][]byte) string {
 func c01RtTCP(fs []string) string {
 	atoi := func(s string) int { n, _ := strconv.Atoi(s); return n }
 	pos, lenA, lenB, len2A, len2B := atoi(fs[2]), atoi(fs[3]), atoi(fs[4]), atoi(fs[5]), atoi(fs[6])
+	if len(fs) > 7 && atoi(fs[7]) > 0 {
+		// one P: whatever the parked goroutine left in per-P caches (sync.Pool) is what the next one finds
+		defer runtime.GOMAXPROCS(runtime.GOMAXPROCS(atoi(fs[7])))
+	}
 	clientSesh, serverSesh := c01RtPair(false)
 	defer clientSesh.Close()
 	defer serverSesh.Close()
